@@ -189,6 +189,8 @@ def with_layouts(rng, cases, p_alt=0.15, p_lumped=0.0):
             elif p_alt <= r < p_alt + p_lumped and case.get('form') in ('loa', 'obj', 'toa', 'lol') and not case.get('dtypes') \
                     and all(len(t) for t in case.get('trajs', [[]])):
                 case['layout'] = 'lumped'
+            if 'iter' in case and rng.random() < 0.08:
+                case['itertype'] = rng.choice(['np', 'int'])          # the mode flag as NumPy bool / 0-1 integer
             if 'lag' in case and rng.random() < 0.08 and -100 < case['lag'] < 100:
                 case['lagtype'] = rng.choice(['int8', 'int16', 'int32', 'int64'])     # numpy integer scalars as lag time
         yield case
